@@ -292,6 +292,10 @@ func (ex *Exec) intBinOp(st *State, op token.Token, x, y *Term, xt, yt types.Typ
 		}
 		return ex.fitIntV(st, r, b, pos)
 	case token.MUL:
+		if !signed && (x.IsConst() || y.IsConst()) {
+			// unsigned multiplication by a constant wraps (defined behaviour): exact via mod
+			return ex.wrapInt(tb.Mul(x, y), b), true
+		}
 		return ex.fitIntV(st, tb.Mul(x, y), b, pos)
 	case token.QUO, token.REM:
 		if !ex.check(st, "panic:divide", "integer divide by zero", tb.Not(tb.Eq(y, tb.Int(0))), pos) {
